@@ -60,9 +60,8 @@ let check_record (r : record) =
      | Ok _, "err" -> diff "status" ~model:"ok" ~impl:"err"
      | Ok mp, _ ->
        check_eq "pcs" show_pcs mp r.pcs;
-       (match counter_name symb r.child r.text with
-        | Ok nm -> check_eq "name" show_b nm r.name
-        | Err -> diff "name" ~model:"err" ~impl:(show_b r.name)));
+       (* counter_name = name_of_pcs o parse_stack_pcs by definition: parse once *)
+       check_eq "name" show_b (name_of_pcs symb mp) r.name);
     (* the factorisation through the projection, executed *)
     let v = view r.text in
     (match finish symb r.child v, r.status with
@@ -153,6 +152,39 @@ let handle kind c =
       prop "relocation-invariant" (Printf.sprintf "same report with sentinel and pcs shifted: %S vs %S" (short r1.name) (short r2.name))
     else if r1.status <> r2.status then
       prop "relocation-invariant" (Printf.sprintf "same report with sentinel and pcs shifted: %s vs %s" r1.status r2.status)
+  | "child" ->
+    (* the report delivered on stdin to the real crashmonitor.Child process *)
+    let child = next_n c in
+    let text = next_bytes c in
+    let status = next c in
+    let name = if status = "ok" then next_bytes c else [] in
+    let frames = next_list c next_frame in
+    let symb _ = frames in
+    if status = "unexpected" then prop "total" ("Child counted several names or none and did not exit cleanly on " ^ short text)
+    else begin
+      (match monitor_child symb child text, status with
+       | NoCrash, "nocrash" | Malformed, "err" -> ()
+       | Counted nm, "ok" -> check_eq "child-name" show_b nm name
+       | NoCrash, _ -> diff "child-status" ~model:"nocrash" ~impl:status
+       | Malformed, _ -> diff "child-status" ~model:"err" ~impl:status
+       | Counted _, _ -> diff "child-status" ~model:"ok" ~impl:status);
+      (* Child's own rule: only a report of fewer than two lines is "no crash" *)
+      if status = "nocrash" && List.length (List.filter (fun x -> x = n_of_int 10) text) >= 2 then
+        prop "child-reports-crash" (Printf.sprintf "a report of %d bytes with a crash was treated as 'parent exited without crash'" (List.length text));
+      if status = "ok" then begin
+        if List.length name > limit then prop "length-bound" (Printf.sprintf "len=%d" (List.length name));
+        (* non-interference across both routes: equal projections -> equal names *)
+        (match view_key child (view text) with
+         | None -> ()
+         | Some k ->
+           (match Hashtbl.find_opt by_view k with
+            | Some (nm0, text0) ->
+              if nm0 <> name then
+                prop "noninterference" (Printf.sprintf "two reports with the same sentinel and pcs give %S and (through the Child process, report of %d bytes) %S; other report (%d bytes): %S"
+                                          (short nm0) (List.length text) (short name) (List.length text0) (short text0))
+            | None -> Hashtbl.replace by_view k (name, text)))
+      end
+    end
   | "uint" ->
     let s = next_bytes c in
     let st = next c in
